@@ -423,10 +423,8 @@ impl Case {
     /// Construct predicates of known root causes this case exercises. A failure of leg "accepted" on a case that
     /// matches one of these is reported under that key (root cause + construct), independent of rule/context.
     fn construct_keys(&self) -> Vec<&'static str> {
+        // rule-level causes first: a field write inside an `elif` stays accepted when only the `elif` defect is repaired
         let mut k = Vec::new();
-        if self.path.iter().any(|n| n.is_elif()) {
-            k.push(KEY_ELIF);
-        }
         if matches!(self.rule, Rule::Reassign | Rule::AssignReassign) && self.eff_decl_up() > 0 {
             k.push(KEY_OUTER_ASSIGN);
         }
@@ -441,6 +439,9 @@ impl Case {
         }
         if self.rule == Rule::SelfFieldWrite {
             k.push(KEY_SELF_FIELD_WRITE);
+        }
+        if self.path.iter().any(|n| n.is_elif()) {
+            k.push(KEY_ELIF);
         }
         k
     }
@@ -1201,12 +1202,14 @@ fn fail_key(c: &Case, leg: &str) -> String {
             }
             for (root, path, name) in singles {
                 // two independent simple probes (so that the failing rule itself is never its own witness)
-                let swallowed = [Rule::UnknownValue, Rule::AssignAnnotated, Rule::ReturnType]
+                let probes: Vec<Rule> = [Rule::UnknownValue, Rule::UnknownCallee, Rule::AssignAnnotated, Rule::ReturnType]
                     .into_iter()
                     .filter(|r| *r != c.rule && path_valid(*r, &path))
                     .take(2)
-                    .all(|r| fails_same_leg(&Case { rule: r, root, path: path.clone(), decl_up: 0, v: [0, 0, 0, 0] }));
-                let any_probe = [Rule::UnknownValue, Rule::AssignAnnotated, Rule::ReturnType].into_iter().any(|r| r != c.rule && path_valid(r, &path));
+                    .collect();
+                let any_probe = !probes.is_empty();
+                let swallowed =
+                    probes.iter().all(|r| fails_same_leg(&Case { rule: *r, root, path: path.clone(), decl_up: 0, v: [0, 0, 0, 0] }));
                 if any_probe && swallowed {
                     return format!("context-unchecked:{name}");
                 }
